@@ -12,4 +12,15 @@ unset GOARCH GOOS
 if [ ! -x "$HERE/bin/stackcheck" ] || [ -n "$(find "$HERE/checker" -name '*.go' -newer "$HERE/bin/stackcheck" 2>/dev/null | head -1)" ]; then
   (cd "$HERE/checker" && go build -o "$HERE/bin/stackcheck" .) || { echo "VIOLATION property=$PROP replay=$HERE/evidence/replay/$PROP-build.json"; exit 1; }
 fi
-exec "$HERE/bin/stackcheck" -verif "$HERE" -repo "$REPO" -prop "$PROP" -tier "$TIER" -evidence "$HERE/evidence/$PROP.json"
+if [ "$TIER" != "thorough" ]; then
+  exec "$HERE/bin/stackcheck" -verif "$HERE" -repo "$REPO" -prop "$PROP" -tier "$TIER" -evidence "$HERE/evidence/$PROP.json"
+fi
+# thorough: the same decision procedure plus the whole-program call-graph cross-check
+# (inside the binary), then the self-check of this property's rules against the seeded
+# mutants and the reverts of the recorded repo fixes (informational lines only)
+"$HERE/bin/stackcheck" -verif "$HERE" -repo "$REPO" -prop "$PROP" -tier "$TIER" -evidence "$HERE/evidence/$PROP.json"
+RC=$?
+if [ "$REPO" = "/repo" ] && [ -x "$HERE/tools/selfcheck.sh" ]; then
+  "$HERE/tools/selfcheck.sh" "$PROP" 2>/dev/null
+fi
+exit $RC
